@@ -2,6 +2,7 @@ package main
 
 import (
 	"fmt"
+	"go/token"
 	"go/types"
 	"sort"
 	"strings"
@@ -493,9 +494,72 @@ func ruleDiskCopyFileCloses(c *Ctx) {
 	// analyse: in g, the file value dval is closed on every path from `start` and the Close error is the success result
 	analyse := func(g *ssa.Function, dval ssa.Value, start ssa.Instruction, createErr ssa.Value, cp *ssa.Call) (bool, string) {
 		facts := factsFor(g)
+		// captured: v (inside a function literal of g) reads the variable that holds dval
+		captured := func(v ssa.Value) bool {
+			u, ok := resolve(v).(*ssa.UnOp)
+			if !ok || u.Op != token.MUL {
+				return false
+			}
+			fv, ok := u.X.(*ssa.FreeVar)
+			if !ok {
+				return false
+			}
+			a, ok := bindingOf(fv).(*ssa.Alloc)
+			if !ok {
+				return false
+			}
+			st := uniqueStore(a)
+			return st != nil && resolve(st.Val) == dval
+		}
+		deferSetsCloseErr := false
 		isClose := func(in ssa.Instruction) bool {
 			ci := callInfo(in, nil, 0)
-			return ci != nil && ci.Static != nil && qualName(ci.Static) == "os.(File).Close" && resolve(ci.Recv()) == dval
+			if ci != nil && ci.Kind != "go" && ci.Static != nil && qualName(ci.Static) == "os.(File).Close" && resolve(ci.Recv()) == dval {
+				return true
+			}
+			// defer func() { if cerr := d.Close(); err == nil { err = cerr } }()
+			d, isD := in.(*ssa.Defer)
+			if !isD {
+				return false
+			}
+			mc, isMC := d.Call.Value.(*ssa.MakeClosure)
+			if !isMC {
+				return false
+			}
+			fn, isFn := mc.Fn.(*ssa.Function)
+			if !isFn || fn.Blocks == nil {
+				return false
+			}
+			var closeCall *ssa.Call
+			inner := func(x ssa.Instruction) bool {
+				xi := callInfo(x, nil, 0)
+				if xi != nil && xi.Kind == "call" && xi.Static != nil && qualName(xi.Static) == "os.(File).Close" && captured(xi.Recv()) {
+					closeCall, _ = x.(*ssa.Call)
+					return true
+				}
+				return false
+			}
+			if len(MustPass(fn, nil, inner)) != 0 || closeCall == nil {
+				return false
+			}
+			// the literal hands the Close error to the (named) result, only while that is still nil
+			ff := factsFor(fn)
+			eachInstr(fn, func(b *ssa.BasicBlock, _ int, x ssa.Instruction) {
+				st, isSt := x.(*ssa.Store)
+				if !isSt || resolve(st.Val) != ssa.Value(closeCall) {
+					return
+				}
+				fv, isFV := st.Addr.(*ssa.FreeVar)
+				if !isFV || !isErrorType(derefType(fv.Type())) {
+					return
+				}
+				for _, r := range *fv.Referrers() {
+					if ld, isLd := r.(*ssa.UnOp); isLd && ff.KnownNil(b, ld, true) {
+						deferSetsCloseErr = true
+					}
+				}
+			})
+			return true
 		}
 		bad := MustPassF(g, start, isClose, func(st int, pred, succ *ssa.BasicBlock) bool {
 			return createErr == nil || !knownNilIn(factsOnEdge(facts, pred, succ), createErr, false)
@@ -516,6 +580,10 @@ func ruleDiskCopyFileCloses(c *Ctx) {
 			if call, isCall := resolve(r.Results[len(r.Results)-1]).(*ssa.Call); isCall && isClose(call) {
 				return true, ""
 			}
+		}
+		if deferSetsCloseErr {
+			// the deferred literal replaces a nil result by the Close error
+			return true, ""
 		}
 		return false, "the destination's Close error is not what the success path returns"
 	}
